@@ -13,7 +13,7 @@ structural necessary conditions (DESIGN §4 C03):
  R4 constraints are matched with the argument's canonical key (shared with C02-R3:
     with the raw key '-a --outp 3' is rejected although requires("o,output") is met)"""
 from .. import rules
-from ..rules import callee_is, object_of, field_name, call_args, mentions_field, mentions_var
+from ..rules import callee_is, object_of, field_name, call_args, mentions_field, mentions_var, mentions_call
 from ..facts import children, strip_all_casts, walk, CALL_KINDS, AnalysisBroken
 from ..boolshape import Interp, NeedAtom, Unsupported
 from .. import effects
@@ -48,7 +48,7 @@ def r3(chk, prog):
             chk.check(bad is None, 'R3', f.name,
                       'ignore_cardinality is true exactly for file/environment read modes', f.loc(c),
                       'for mReadMode == %s the expression yields %s' % (bad or (None, None)))
-    chk.require(n >= 2, 'assignValue call sites in Handler: %d' % n)
+    chk.require(n >= 1, 'assignValue call sites in Handler: %d' % n)
     # readers: scoped flag alive around iterateArguments
     for short, bit in (('readArgumentFile', 'file'), ('checkReadEnvVarArgs', 'envVar')):
         f = prog.one('celma::prog_args::Handler', short)
@@ -438,6 +438,39 @@ def r13_value_list_check(chk, prog, rule='R13'):
     chk.check(ok, rule, f.name, 'the case-sensitive check refuses exactly the values that are not in the set', f.loc())
 
 
+def r15_continuation_is_not_a_use(chk, prog):
+    """Handler::handleIdentifiedArg() is the funnel of a newly identified argument: it notifies the requires/excludes
+    lists and the handler constraints (one_of, any_of: "was already used").  The further separate values of a
+    setTakesMultiValue() argument (`-i 1 2 3`) belong to the same use: the continuation (mpLastArg) is never handed
+    to the funnel, and the multi-value branch of evalSingleArgument() reaches a direct assignValue()."""
+    n = 0
+    for f in prog.functions:
+        if f.classq != 'celma::prog_args::Handler':
+            continue
+        for c in f.calls_to('Handler::handleIdentifiedArg'):
+            n += 1
+            a0 = strip_all_casts(call_args(c)[0])
+            chk.check(field_name(a0) != 'mpLastArg', 'R15', f.name,
+                      'the continuation argument (mpLastArg) is not handed to handleIdentifiedArg: its constraints '
+                      'were executed when the key was identified', f.loc(c),
+                      'one_of/any_of would report the argument as "already used" for its own second value')
+    chk.require(n >= 3, 'handleIdentifiedArg call sites in Handler: %d' % n)
+    f = prog.one('celma::prog_args::Handler', 'evalSingleArgument')
+    cfg = f.cfg
+    found = False
+    for bid, cond in cfg.cond_blocks():
+        if cond is None or not mentions_call(cond, 'takesMultiValue'):
+            continue
+        found = True
+        direct = [c for c in f.calls_to('TypedArgBase::assignValue')
+                  if field_name(object_of(c)) == "mpLastArg" and
+                  cfg.guarded_by_edge(cfg.position(c), bid, 0)]
+        chk.check(bool(direct), 'R15', f.name,
+                  'the branch for a further value of a multi-value argument assigns it directly to mpLastArg',
+                  f.loc(cond))
+    chk.require(found, 'evalSingleArgument has no takesMultiValue() branch')
+
+
 def run(chk):
     prog, units = rules.prog_args_program()
     chk.units = units
@@ -451,7 +484,7 @@ def run(chk):
     chk.assumptions = ['boost::lexical_cast converts every representable value (trusted)']
     chk.rule('R1', 'exact key match wins over abbreviations regardless of definition order', 4)
     chk.rule('R2', 'bound checks / cardinalities accept exactly the documented set', 10)
-    chk.rule('R3', 'values from file/environment never count against the cardinality', 7)
+    chk.rule('R3', 'values from file/environment never count against the cardinality', 6)
     chk.rule('R4', 'constraints matched with the canonical key and removed for every requirer (no spurious "required ... is missing")', 6)
     c05.r2(chk, prog, rule='R1')
     # ... and over the two key containers of a handler: the complete key of a sub-group argument is not
@@ -497,6 +530,8 @@ def run(chk):
     for o in sub8.obligations:
         if 'ends the open value list' in o['what']:
             chk.check(o['status'] == 'held', 'R14', o['function'], o['what'], o['where'], o.get('detail', ''))
+    chk.rule('R15', 'a further value of a multi-value argument is not a new use of the argument', 2)
+    r15_continuation_is_not_a_use(chk, prog)
     sub = type(chk)(chk.pid, chk.tier)
     sub._known = []
     c02.r3_canonical_key(sub, prog)
